@@ -1,5 +1,6 @@
 """The repository's conformance corpus: every `When CEL expression <quoted> is evaluated` step of features/*.feature."""
 import ast
+import os
 import re
 from pathlib import Path
 
@@ -8,7 +9,7 @@ _RX = re.compile(r"^\s*When CEL expression (.*) is evaluated\s*$")
 
 def expressions():
     out, seen = [], set()
-    for f in sorted(Path("/repo/features").glob("*.feature")):
+    for f in sorted(Path(os.environ.get("VERIF_REPO", "/repo") + "/features").glob("*.feature")):
         for line in f.read_text().splitlines():
             m = _RX.match(line)
             if not m:
